@@ -311,11 +311,59 @@ fn mm_strategy() -> impl Strategy<Value = MmCase> {
         .prop_map(|((ty, shape, layout), data, own, static_dim)| MmCase { ty, shape, layout, own, static_dim, data })
 }
 
+/// Thousands of elements (lengths around powers of two and block sizes) in 1-3 dimensions, with
+/// the extremum or a single NaN planted at the first / last / middle / a random position.
+fn mm_long_strategy(max_total: usize) -> impl Strategy<Value = MmCase> {
+    (proptest::sample::select(vec![MmTy::I32, MmTy::U8, MmTy::I64, MmTy::F32, MmTy::F64, MmTy::F64]), crate::gen::long_len(1000, max_total), 0u8..10, 2usize..40, 2usize..6)
+        .prop_flat_map(|(ty, n, dims, a, b)| {
+            let shape = match dims {
+                0..=5 => vec![n],
+                6 => vec![a, (n / a).max(2)],
+                7 => vec![(n / a).max(2), a],
+                8 => vec![b, (n / (a * b)).max(2), a],
+                _ => vec![(n / (a * b)).max(2) | 1, a, b],
+            };
+            let nd = shape.len();
+            (Just((ty, shape)), layout_strategy(nd), any::<u64>(), 0u8..9, 0u8..4, proptest::sample::select(vec![Own::View, Own::View, Own::OwnedC, Own::OwnedF, Own::Shared, Own::CowBorrowed]), any::<bool>())
+        })
+        .prop_map(|((ty, shape), layout, seed, class, pos, own, static_dim)| {
+            let total: usize = shape.iter().product();
+            let mut next = crate::gen::splitmix(seed);
+            let float = matches!(ty, MmTy::F32 | MmTy::F64);
+            let enc = |k: i64| -> i128 {
+                match ty {
+                    MmTy::F64 => f64_abs(k as f64 * 0.5),
+                    MmTy::F32 => f32_abs(k as f32 * 0.5),
+                    MmTy::U8 => (k.rem_euclid(200) + 20) as i128,
+                    _ => k as i128,
+                }
+            };
+            let span: u64 = if class % 3 == 0 { 7 } else { 100_000 };
+            let mut data: Vec<i128> = (0..total).map(|_| enc((next() % span) as i64 - (span as i64) / 2)).collect();
+            let at = match pos {
+                0 => 0,
+                1 => total - 1,
+                2 => total / 2,
+                _ => (next() % total as u64) as usize,
+            };
+            match class {
+                // a unique minimum / maximum at a chosen position
+                0 | 1 | 2 => data[at] = if ty == MmTy::U8 { 1 } else { enc(-1_000_000) },
+                3 | 4 => data[at] = if ty == MmTy::U8 { 250 } else { enc(1_000_000) },
+                // a single NaN at a chosen position
+                5 | 6 | 7 if float => data[at] = if ty == MmTy::F64 { f64_abs(f64::NAN) } else { f32_abs(f32::NAN) },
+                _ => {}
+            }
+            MmCase { ty, shape, layout, own, static_dim, data }
+        })
+}
+
 pub fn run_c05(ctx: &Ctx) {
     let t = ctx.tier();
     ctx.run_proptest("minmax", t.pick(80_000, 3_000_000), mm_strategy(), &check_mm);
+    ctx.run_proptest("minmax-long", t.pick(800, 24_000), mm_long_strategy(t.pick(20_000, 70_000)), &check_mm);
 }
 
 pub fn replayers() -> Vec<(&'static str, ReplayFn)> {
-    vec![("minmax", |v| replay_with::<MmCase>(v, &check_mm))]
+    vec![("minmax", |v| replay_with::<MmCase>(v, &check_mm)), ("minmax-long", |v| replay_with::<MmCase>(v, &check_mm))]
 }
